@@ -58,6 +58,7 @@ def run(ctx):
         [['rw', 'u1'], ['r', 'mr']],
         [['wx', 'wy', 'u2'], ['r', 'r']],           # one undo transaction undoing two transactions of different objects
         [['wx', 'u1', 'u1'], ['r', 'r', 'r']],      # undo of an undo
+        [['wx', 'ul', 'wy'], ['r', 'wx']],          # an undo transaction refused at tpc_begin (over-long description)
         [['cx'], ['wx', 'r']],                      # readCurrent dependency vs a commit
         [['crb'], ['wx', 'r']],                     # ... declared before a savepoint that is rolled back to
         [['wa', 'wx'], ['r', 'co', 'r']],           # pooled connection reused across the other's commit
@@ -65,7 +66,7 @@ def run(ctx):
     pjobs = []
     for pi, progs in enumerate(DIRECTED):
         for kind in ('file', 'mapping'):
-            if kind == 'mapping' and any(op in ('u1', 'u2') for p in progs for op in p):
+            if kind == 'mapping' and any(op in ('u1', 'u2', 'ul') for p in progs for op in p):
                 continue
             yio = kind == 'file' and progs[0][0] in ('va', 'wa')
             names = ['t%d' % (i + 1) for i in range(len(progs))]
